@@ -1,5 +1,5 @@
 import DilithiumVerif.Impl.Packing
-import DilithiumVerif.Lemmas.Codecs
+import DilithiumVerif.Lemmas.CodecsFull
 /-
   C16 — Bit-packing is the specification's encoding and is lossless.
   Round trips are proved on the faithful Impl forms (i32 shifts/ORs/casts), per group of coefficients.
@@ -26,6 +26,37 @@ theorem t0_group (c0 c1 c2 c3 c4 c5 c6 c7 : Int)
     (h4 : -4096 < c4 ∧ c4 ≤ 4096) (h5 : -4096 < c5 ∧ c5 ≤ 4096) (h6 : -4096 < c6 ∧ c6 ≤ 4096) (h7 : -4096 < c7 ∧ c7 ≤ 4096) :
     (t0_pack_group [c0, c1, c2, c3, c4, c5, c6, c7] >>= t0_unpack_group) = .ok [c0, c1, c2, c3, c4, c5, c6, c7] :=
   t0_group_roundtrip c0 c1 c2 c3 c4 c5 c6 c7 h0 h1 h2 h3 h4 h5 h6 h7
+
+/-! ### whole polynomials (256 coefficients): standard length and lossless round trip, every in-range input -/
+
+/-- t1 (10 bits): 320 bytes, decode ∘ encode = id on [0, 2^10)^256 -/
+theorem t1_codec (a : List Int) (hl : a.length = 256) (ha : ∀ x ∈ a, 0 ≤ x ∧ x < 1024) :
+    (t1_pack a).length = 320 ∧ t1_unpack (t1_pack a) = .ok a :=
+  ⟨t1_pack_length a hl, t1_roundtrip a hl ha⟩
+
+/-- t0 (13 bits): 416 bytes, on (−2^12, 2^12]^256, no arithmetic overflow in either direction -/
+theorem t0_codec (a : List Int) (hl : a.length = 256) (ha : ∀ x ∈ a, -4096 < x ∧ x ≤ 4096) :
+    ∃ b, t0_pack a = .ok b ∧ b.length = 416 ∧ t0_unpack b = .ok a := t0_roundtrip a hl ha
+
+/-- η-bounded secrets: η = 2 (3 bits, 96 bytes; lvl2 and lvl5 copies), η = 4 (4 bits, 128 bytes; lvl3 copy) -/
+theorem eta_codec_2 (lv : Lvl) (hlv : lv = .l2 ∨ lv = .l5) (a : List Int) (hl : a.length = 256) (ha : ∀ x ∈ a, -2 ≤ x ∧ x ≤ 2) :
+    ∃ b, eta_pack lv a = .ok b ∧ b.length = 96 ∧ eta_unpack lv b = .ok a := eta2_roundtrip lv hlv a hl ha
+theorem eta_codec_4 (a : List Int) (hl : a.length = 256) (ha : ∀ x ∈ a, -4 ≤ x ∧ x ≤ 4) :
+    ∃ b, eta_pack .l3 a = .ok b ∧ b.length = 128 ∧ eta_unpack .l3 b = .ok a := eta4_roundtrip a hl ha
+
+/-- γ1-bounded response: γ1 = 2^17 (18 bits, 576 bytes; lvl2 copy), γ1 = 2^19 (20 bits, 640 bytes; lvl3, lvl5 copies),
+    on the full specification range (−γ1, γ1] -/
+theorem z_codec_17 (a : List Int) (hl : a.length = 256) (ha : ∀ x ∈ a, -131072 < x ∧ x ≤ 131072) :
+    ∃ b, z_pack .l2 a = .ok b ∧ b.length = 576 ∧ z_unpack .l2 b = .ok a := z17_roundtrip a hl ha
+theorem z_codec_19 (lv : Lvl) (hlv : lv = .l3 ∨ lv = .l5) (a : List Int) (hl : a.length = 256)
+    (ha : ∀ x ∈ a, -524288 < x ∧ x ≤ 524288) :
+    ∃ b, z_pack lv a = .ok b ∧ b.length = 640 ∧ z_unpack lv b = .ok a := z19_roundtrip lv hlv a hl ha
+
+/-- the six parameter sets use exactly these copies with these ranges -/
+theorem codec_params : ∀ p ∈ allParams,
+    (p.eta = 2 ∧ (p.lvl = .l2 ∨ p.lvl = .l5) ∧ p.polyeta = 96 ∨ p.eta = 4 ∧ p.lvl = .l3 ∧ p.polyeta = 128) ∧
+    (p.gamma1 = 131072 ∧ p.lvl = .l2 ∧ p.polyz = 576 ∨ p.gamma1 = 524288 ∧ (p.lvl = .l3 ∨ p.lvl = .l5) ∧ p.polyz = 640) := by
+  decide
 
 example : t1_unpack_group (t1_pack_group [1023, 0, 513, 1]) = [1023, 0, 513, 1] := by decide
 
